@@ -214,6 +214,8 @@ def r6_padding0(ctx):
     L1 = o.of_operand(tb[0].args[0])
     L2 = o.of_operand(fe[0].args[1])
     inner2 = L2[3] if isinstance(L2, tuple) and L2[0] == "cast" else L2
+    if is_call_term(inner2, "From<u16> for usize>::from", "From<u16> for u32>::from", "From<u16> for u64>::from", "Into<usize>>::into") and len(inner2[3]) == 1:
+        inner2 = inner2[3][0]      # usize::from(len): the lossless spelling of `len as usize`
     # the size generator is random: "the same value" means the same evaluation (same call site), not the same expression
     same = inner2 == L1
     ctx.ob("R05.6", "send_authentication:length=fill", same, tb[0].site, "declared padding0 length and the zero bytes written are the same value" if same else
@@ -306,8 +308,11 @@ def r9_loop_exits(ctx):
         if c.kind == "bool" and isinstance(t, tuple) and t[0] == "binop" and is_call_term(t[2], "BytesMut::len") and var_name(t[2][3][0]) == "buffer" and const_value(t[3]) == 0:
             if t[1] == "Eq":
                 empty_true += c.edges_for(True)
+            elif t[1] == "Ne":
+                empty_true += c.edges_for(False)      # `if len != 0 { continue } break` is the same test
             elif t[1] == "Gt":
                 nopayload_edges += c.edges_for(False)
+                empty_true += c.edges_for(False)
     if not cm_true:
         ctx.missing("R05.9", "comparison of the size with CHECK_MARK in the shaping loop")
         return
